@@ -24,7 +24,7 @@ CORPUS = [
 ]
 
 
-def compile_text(B, text, I=None, st=None, hash_order=None, allow_fail=False):
+def compile_text(B, text, I=None, st=None, hash_order="fwd", allow_fail=False):
     E = B.engine("dev")
     if I is None:
         I = E.fresh()
